@@ -67,9 +67,17 @@ def wrap_shallow(inner_kind, arg, depth):
     return {"v": build(inner_kind, arg, depth - 1)}
 
 
+@task(version="1")
+def via_subrun(x):
+    """a sub-scheduler run (its dry-run flag travels in run_config, which must not enter the cache key)"""
+    from redun.scheduler import subrun
+    CALLS.append("via_subrun")
+    return subrun(const(x), executor="default", new_execution=False)
+
+
 def build(kind, arg, depth, wraps=("wrap_full",)):
-    """kind 'stamp' | 'report' | 'const'; depth = number of wrapping tasks (kinds cycle through wraps)."""
+    """kind 'stamp' | 'report' | 'const' | 'subrun'; depth = number of wrapping tasks (kinds cycle through wraps)."""
     if depth <= 0:
-        return {"stamp": stamp, "report": report, "const": const}[kind](arg)
+        return {"stamp": stamp, "report": report, "const": const, "subrun": via_subrun}[kind](arg)
     w = {"wrap_full": wrap_full, "wrap_shallow": wrap_shallow}[wraps[depth % len(wraps)]]
     return w(kind, arg, depth)
